@@ -91,7 +91,7 @@ def solve_job(job):
     backend = 'z3-5.1(py)'
     total = dt
     if r == 'unknown' and job.get('portfolio', True):
-        to = max(5, int(job.get('timeout_ms', 30000) / 1000))
+        to = max(5, int(job.get('portfolio_timeout_ms', min(15000, job.get('timeout_ms', 30000))) / 1000))
         r2, dt2 = _run_cli(['/usr/bin/z3', '-T:%d' % to], smt, to)
         total += dt2
         if r2 in ('sat', 'unsat'):
